@@ -155,6 +155,21 @@ class Dead(Exception):
     pass
 
 
+# every call made by solveWall (also in assignments, tests and in its closure) must be one of
+# these; anything else could act on `results` or on the object behind the model's back
+ALLOWED_CALLS = {"self.wallPressure", "self.hydrodynamics.findvwLTE",
+                 "self.getBoltzmannFiniteDifference", "WallGoResults", "abs", "max", "min",
+                 "float", "scipy.optimize.root_scalar"}
+ALLOWED_PREFIXES = ("np.", "logging.", "warnings.", "results.set")
+
+
+def check_allowed_call(f, src, node):
+    if f in ALLOWED_CALLS or f.startswith(ALLOWED_PREFIXES):
+        return
+    raise TranslateError("call outside the subset in solveWall: %s (line %s)"
+                         % (f, getattr(node, "lineno", "?")))
+
+
 class PathWalker:
     """Enumerates the paths of a method body (if: both arms; while: 0, 1 or 2 iterations) and
     tracks, per path, an abstract value for every local name."""
@@ -204,6 +219,7 @@ class PathWalker:
                 st["after_root"] = True
                 self.rootcall = (node, dict(env))
                 return ("rootresult",)
+            check_allowed_call(f, self.src, node)
             return ("call", f, tuple(self.val(a, st) for a in node.args))
         return ("expr", src_of(node, self.src))
 
@@ -282,6 +298,15 @@ class PathWalker:
                     self.block(s.body, it, lambda st3: unroll(st3, n - 1))
             return unroll(st, 2)
         if isinstance(s, ast.FunctionDef):
+            for n in ast.walk(s):
+                if isinstance(n, ast.Call):
+                    check_allowed_call(src_of(n.func, self.src), self.src, n)
+                elif isinstance(n, (ast.Attribute, ast.Subscript)) and \
+                        isinstance(n.ctx, (ast.Store, ast.Del)):
+                    raise TranslateError("store inside the closure %s: %s"
+                                         % (s.name, src_of(n, self.src)))
+                elif isinstance(n, (ast.Global, ast.Nonlocal)):
+                    raise TranslateError("global/nonlocal inside the closure %s" % s.name)
             self.closures[s.name] = (s, dict(st["env"]))
             st["env"][s.name] = ("closure", s.name)
             return nxt(st)
@@ -566,7 +591,8 @@ def solvewall_facts(src):
                 npaths=len(w.exits), attr_stores=sorted(w.attr_stores),
                 messages=message_facts(src, fn),
                 wploop=wallpressure_loop_facts(src, eom), init=eom_init_facts(src, eom),
-                deton=detonation_facts(src, eom))
+                deton=detonation_facts(src, eom), bounds=bounds_facts(src, eom),
+                deflag=deflag_facts(src, eom))
 
 
 # ---------------------------------------------------------------------------------------
@@ -837,14 +863,173 @@ def detonation_facts(src, cls):
             elif isinstance(s, ast.While):
                 run(s.body, guards)
                 run(s.body, guards)
-            elif isinstance(s, ast.For):
-                raise TranslateError("findWallVelocityDetonation: for loop")
+            elif isinstance(s, (ast.For, ast.Try, ast.With, ast.AsyncWith, ast.Match)
+                            if hasattr(ast, "Match") else (ast.For, ast.Try, ast.With)):
+                raise TranslateError("findWallVelocityDetonation: %s statement outside the "
+                                     "subset" % type(s).__name__)
 
     run(strip_doc(fn.body), [])
     if not checks:
         raise TranslateError("findWallVelocityDetonation does not call self.solveWall")
     # the window handed over by the manager
     return dict(checks=checks)
+
+
+
+# ---------------------------------------------------------------------------------------
+# helpers: single-definition locals and inlining
+
+def single_defs(fn):
+    alldefs, tainted = {}, set()
+    for s_ in ast.walk(fn):
+        if isinstance(s_, ast.Assign) and len(s_.targets) == 1 and \
+                isinstance(s_.targets[0], ast.Name):
+            alldefs.setdefault(s_.targets[0].id, []).append(s_.value)
+        elif isinstance(s_, ast.AnnAssign) and isinstance(s_.target, ast.Name) and \
+                s_.value is not None:
+            alldefs.setdefault(s_.target.id, []).append(s_.value)
+        tg = []
+        if isinstance(s_, ast.Assign):
+            tg = [t for t in s_.targets if not isinstance(t, ast.Name)] + \
+                 (list(s_.targets) if len(s_.targets) > 1 else [])
+        elif isinstance(s_, ast.AnnAssign) and not isinstance(s_.target, ast.Name):
+            tg = [s_.target]
+        elif isinstance(s_, (ast.AugAssign, ast.For, ast.NamedExpr)):
+            tg = [s_.target]
+        elif isinstance(s_, ast.With):
+            tg = [i.optional_vars for i in s_.items if i.optional_vars is not None]
+        elif isinstance(s_, (ast.FunctionDef, ast.Lambda)):
+            tainted.update(a.arg for a in s_.args.args)
+        for t in tg:
+            tainted.update(n.id for n in ast.walk(t) if isinstance(n, ast.Name))
+    return {nm: ds[0] for nm, ds in alldefs.items() if len(ds) == 1 and nm not in tainted}
+
+
+def inline(node, single, depth=0):
+    import copy as _copy
+
+    class T(ast.NodeTransformer):
+        def visit_Name(self, n):
+            if isinstance(n.ctx, ast.Load) and n.id in single and depth < 12:
+                return inline(_copy.deepcopy(single[n.id]), single, depth + 1)
+            return n
+    return T().visit(_copy.deepcopy(node))
+
+
+def canon(node, single):
+    return ast.unparse(inline(node, single))
+
+
+# ---------------------------------------------------------------------------------------
+# the saturation guard of solveWall tests the returned wall parameters against the SAME
+# expressions that bound the minimiser in _intermediatePressureResults
+
+def bounds_facts(src, cls):
+    sw = find_method(cls, "solveWall")
+    ip = find_method(cls, "_intermediatePressureResults")
+    s_sw, s_ip = single_defs(sw), single_defs(ip)
+    guard = []
+    for n in ast.walk(sw):
+        if isinstance(n, ast.If) and mentions(n.test, "wallThicknessBounds", "wallOffsetBounds"):
+            for c in ast.walk(n.test):
+                if isinstance(c, ast.Compare):
+                    if len(c.ops) != 1 or not isinstance(c.ops[0], ast.Eq):
+                        raise TranslateError("saturation guard: comparison other than ==")
+                    guard.append(canon(c.comparators[0], s_sw))
+    if len(guard) != 4:
+        raise TranslateError("saturation guard: expected 4 equality tests, found %d" % len(guard))
+    mini = []
+    calls = [n for n in ast.walk(ip) if isinstance(n, ast.Call)
+             and src_of(n.func, src).endswith("Bounds")]
+    if len(calls) != 1:
+        raise TranslateError("_intermediatePressureResults: expected one Bounds(...) call")
+    kw = {k.arg: k.value for k in calls[0].keywords}
+    args = list(calls[0].args)
+    lb = kw.get("lb", args[0] if args else None)
+    ub = kw.get("ub", args[1] if len(args) > 1 else None)
+    if lb is None or ub is None:
+        raise TranslateError("Bounds(...) without lb/ub")
+    for b in (lb, ub):
+        e = inline(b, s_ip)
+        lists = [n for n in ast.walk(e) if isinstance(n, ast.List) and len(n.elts) == 1]
+        if len(lists) != 2:
+            raise TranslateError("minimiser bounds: expected [width bound] and [offset bound]")
+        mini += [ast.unparse(l.elts[0]) for l in lists]
+    # the minimiser must be handed these bounds
+    mins = [n for n in ast.walk(ip) if isinstance(n, ast.Call)
+            and src_of(n.func, src).endswith("optimize.minimize")]
+    handed = len(mins) == 1 and any(
+        k.arg == "bounds" and canon(k.value, s_ip) == canon(calls[0], s_ip)
+        for k in mins[0].keywords)
+    return dict(guard=sorted(guard), mini=sorted(mini), handed=handed)
+
+
+# ---------------------------------------------------------------------------------------
+# findWallVelocityDeflagrationHybrid
+
+def deflag_facts(src, cls):
+    fn = find_method(cls, "findWallVelocityDeflagrationHybrid")
+    single = single_defs(fn)
+    params = [a.arg for a in fn.args.args if a.arg != "self"]
+    rets = [n for n in ast.walk(fn) if isinstance(n, ast.Return)]
+    if len(rets) != 1 or not is_self_call(rets[0].value, "solveWall"):
+        raise TranslateError("findWallVelocityDeflagrationHybrid must end in one "
+                             "`return self.solveWall(...)`")
+    call = rets[0].value
+    if len(call.args) != 3 or call.keywords:
+        raise TranslateError("findWallVelocityDeflagrationHybrid: solveWall(lower, upper, guess)")
+    lower = canon(call.args[0], single)
+    up = inline(call.args[1], single)
+    upper_ok = (isinstance(up, ast.Call) and ast.unparse(up.func) == "min" and len(up.args) == 2
+                and not up.keywords and sorted(ast.unparse(a) for a in up.args) ==
+                ["self.hydrodynamics.fastestDeflag()", "self.hydrodynamics.vJ"])
+    g = inline(call.args[2], single)
+    guess_ok = False
+    if isinstance(g, ast.Call) and ast.unparse(g.func) == "WallParams" and not g.args:
+        kw = {k.arg: ast.unparse(k.value) for k in g.keywords}
+        p0 = params[0] if params else "?"
+        guess_ok = (kw.get("widths") in ("%s * np.ones(self.nbrFields)" % p0,
+                                         "np.ones(self.nbrFields) * %s" % p0)
+                    and kw.get("offsets") == "np.zeros(self.nbrFields)" and len(kw) == 2)
+    # the default thickness
+    default_ok = False
+    for n in ast.walk(fn):
+        if isinstance(n, ast.If) and isinstance(n.test, ast.Compare) and \
+                ast.unparse(n.test) == "%s is None" % (params[0] if params else "?") and \
+                len(n.body) == 1 and isinstance(n.body[0], ast.Assign) and not n.orelse:
+            default_ok = ast.unparse(n.body[0]) == "%s = 5 / self.thermo.Tnucl" % params[0]
+    stores = sorted({ast.unparse(n) for n in ast.walk(fn)
+                     if isinstance(n, (ast.Attribute, ast.Subscript))
+                     and isinstance(n.ctx, (ast.Store, ast.Del))})
+    allowed = {"self.solveWall", "self.hydrodynamics.fastestDeflag", "min", "WallParams",
+               "np.ones", "np.zeros", "logging.warning"}
+    others = sorted({ast.unparse(n.func) for n in ast.walk(fn) if isinstance(n, ast.Call)}
+                    - allowed)
+    return dict(lower=lower, upper_ok=upper_ok, guess_ok=guess_ok, default_ok=default_ok,
+                stores=stores, others=others)
+
+
+# ---------------------------------------------------------------------------------------
+# the manager's entry points must not store anything (config, settings, solver)
+
+def manager_entry_stores(src, cls, names=("solveWall", "solveWallDetonation", "wallSpeedLTE")):
+    out = []
+    for nm in names:
+        fn = find_method(cls, nm)
+        for n in ast.walk(fn):
+            if isinstance(n, (ast.Attribute, ast.Subscript)) and \
+                    isinstance(n.ctx, (ast.Store, ast.Del)):
+                out.append("%s: %s" % (nm, ast.unparse(n)))
+            elif isinstance(n, ast.Call) and isinstance(n.func, ast.Name) and \
+                    n.func.id in ("setattr", "delattr", "exec", "eval"):
+                out.append("%s: %s(...)" % (nm, n.func.id))
+            elif isinstance(n, ast.Call) and isinstance(n.func, ast.Attribute) and \
+                    n.func.attr in ("__setattr__", "update", "setdefault", "pop", "clear",
+                                    "append", "extend", "insert", "remove"):
+                out.append("%s: %s(...)" % (nm, ast.unparse(n.func)))
+            elif isinstance(n, (ast.Global, ast.Nonlocal)):
+                out.append("%s: global" % nm)
+    return sorted(set(out))
 
 
 
@@ -1022,6 +1207,7 @@ def manager_facts(src, signatures=None):
     out["setup_returns"] = rets
     out["setup_stores"] = sorted(set(pv.self_stores))
     out["local_stores"] = pv.local_stores
+    out["entry_stores"] = manager_entry_stores(src, cls)
     # receivers of the EOM calls in solveWall / solveWallDetonation
     for m, callee in (("solveWall", "findWallVelocityDeflagrationHybrid"),
                       ("solveWallDetonation", "findWallVelocityDetonation")):
@@ -1168,6 +1354,31 @@ def generate(eom_src, mgr_src):
              "iterations): tuples belong to the ends / guard is p(hi) >= 0 >= p(lo) *)")
     L.append("Definition gen_deton_callsites : list (bool * bool) := [%s]." % "; ".join(
         "(%s, %s)" % (coq_bool(a), coq_bool(b)) for a, b in f["deton"]["checks"]))
+    L.append("")
+    b = f["bounds"]
+    L.append("(** saturation guard of solveWall vs. bounds of the minimiser in "
+             "_intermediatePressureResults (canonical source text, locals inlined) *)")
+    L.append("Definition gen_guard_bound_exprs : list string := %s." % coq_str_list(b["guard"]))
+    L.append("Definition gen_minimiser_bound_exprs : list string := %s."
+             % coq_str_list(b["mini"]))
+    L.append("Definition gen_minimiser_gets_these_bounds : bool := %s." % coq_bool(b["handed"]))
+    d = f["deflag"]
+    L.append("")
+    L.append("(** findWallVelocityDeflagrationHybrid *)")
+    L.append("Definition gen_deflag_lower : string := \"%s\"." % d["lower"].replace('"', "'"))
+    L.append("Definition gen_deflag_upper_is_min_vJ_fastestDeflag : bool := %s."
+             % coq_bool(d["upper_ok"]))
+    L.append("Definition gen_deflag_guess_is_uniform : bool := %s." % coq_bool(d["guess_ok"]))
+    L.append("Definition gen_deflag_default_thickness_is_5_over_Tnucl : bool := %s."
+             % coq_bool(d["default_ok"]))
+    L.append("Definition gen_deflag_stores : list string := %s." % coq_str_list(d["stores"]))
+    L.append("Definition gen_deflag_other_calls : list string := %s."
+             % coq_str_list(d["others"]))
+    L.append("")
+    L.append("(** stores (attribute / item / mutating calls) in WallGoManager.solveWall, "
+             "solveWallDetonation, wallSpeedLTE *)")
+    L.append("Definition gen_manager_entry_stores : list string := %s."
+             % coq_str_list(x.replace('"', "'") for x in m["entry_stores"]))
     L.append("")
     L.append("(** WallGoManager: provenance of what setupWallSolver returns *)")
     L.append("Inductive prov :=\n  | PNew (cls : string) (args : list (string * prov))"
